@@ -45,7 +45,8 @@ def cases(tier, seed):
         thermal = (i % 3 == 2)
         sp = gen.config(rng, crops=(th if thermal else cd), seasons=(1, 3), p_gw=0.15, p_custom=0.2,
                         p_file=0.0, end_shape=gen.pick(rng, ["after", "mid", "after", "long"]),
-                        harvest_early=0.1)
+                        harvest_early=0.1, p_co2=0.7, year_range=(1985, 2032),
+                        regimes=(None if thermal else ["temperate", "cold", "warm", "humid", "arid", "monsoon"]))
         if sp.get("gw") and sp["gw"]["method"] == "Variable":
             sp["gw"]["method"] = "Constant"
         out.append({"spec": sp, "seed": int(rng.integers(0, 2 ** 31 - 1))})
@@ -96,6 +97,7 @@ def run_case(case):
     if B.status != "ok":
         return base.finish(spec, B, acc, False, instruments=("step",))
     tr = B.trace
+    S0 = S.d(spec["start"])
     # ---- (1) access monitor ------------------------------------------------------------
     n_span = tr.init["n_span"]
     cov["weather_reads"] += len(tr.reads)
@@ -120,10 +122,18 @@ def run_case(case):
     N = len(A[0])
     steps_t = [s["t"] for s in tr.steps]
     nt = False
-    S0 = S.d(spec["start"])
     # ---- (2) perturbation from a cut day -------------------------------------------------
     if cd and spec["weather"]["kind"] == "synth" and len(steps_t) > 5:
-        cuts = sorted(set(int(x) for x in rng.choice(steps_t[1:], size=min(3, len(steps_t) - 1), replace=False)))
+        cuts = set(int(x) for x in rng.choice(steps_t[1:], size=min(3, len(steps_t) - 1), replace=False))
+        # boundary-directed cuts: the day after a day whose weather sits on a documented bound
+        # (ET0 at the 0.1 floor, a dry day, a frost day) - where a neighbour-reading slip would show
+        wl = base.weather_lookup(B.kw)
+        exec_set = set(steps_t)
+        special = [t for t in steps_t[:-1] if (t + 1) in exec_set and wl[(S0 + dt.timedelta(days=t))][3] <= 0.1]
+        if special:
+            cuts.add(int(special[int(rng.integers(0, len(special)))]) + 1)
+            cov["cuts_after_et0_floor"] += 1
+        cuts = sorted(cuts)
         for tstar in cuts:
             sp2 = copy.deepcopy(spec)
             day = S0 + dt.timedelta(days=tstar)
@@ -163,6 +173,8 @@ def run_case(case):
         sp3["pad_before"] = int(rng.choice([1, 7, 120, 400]))
         sp3["pad_after"] = int(rng.choice([1, 7, 120, 400]))
         eps = sp3["weather"].setdefault("episodes", [])
+        eps.append({"var": "ReferenceET", "from": gen.fmt(S0 - dt.timedelta(days=sp3["pad_before"])),
+                    "days": sp3["pad_before"], "value": 9.5})
         eps.append({"var": "Precipitation", "from": gen.fmt(S0 - dt.timedelta(days=sp3["pad_before"])),
                     "days": sp3["pad_before"], "value": 250.0})
         eps.append({"var": "heat", "from": gen.fmt(S.d(spec["end"]) + dt.timedelta(days=1)),
